@@ -11,7 +11,7 @@ import (
 )
 
 func init() {
-	Runners["C08"] = fileRunner(func(p *harness.Program) Result { return RunC08(p, false) })
+	Runners["C08"] = fileRunnerEnum(func(p *harness.Program) Result { return RunC08(p, false) })
 	harness.Specs["C08"] = &harness.PropSpec{
 		ID: "C08", Test: "TestC08", Kind: "file", Level: "fault_enumeration",
 		Quick: 2400, Thorough: 120000,
